@@ -94,6 +94,9 @@ var (
 
 // newTransport new a transport for http
 func newTransport(h2c bool) http.RoundTripper {
+	if t := verifTransport(h2c); t != nil {
+		return t
+	}
 	if h2c {
 		return &http2.Transport{
 			// 允许使用http的方式
